@@ -54,6 +54,8 @@ def call_builtin(E, fv, args, kwargs, st, node):
         return struct_model.call(E, obj.__name__, args, kwargs, st, node)
     if hasattr(builtins, name) and getattr(builtins, name) is obj:
         h = BUILTINS.get(name)
+        if h is None and E.externals.get(name) is not None:
+            return E.externals[name](E, args, kwargs, st, node)
         if h is None:
             raise EngineError("builtin %s not modelled (line %s)" % (name, getattr(node, "lineno", "?")))
         return h(E, args, kwargs, st, node)
